@@ -1,20 +1,76 @@
 import NriModel.Lemmas.ResultView
+import NriModel.Lemmas.ComposeAssemble
 /-!
 # C03 — the combined adjustment equals applying each plugin's adjustment in turn
 
-Status of the proof side (see DESIGN.md §5 C03 for the full plan): the property relates two
-models — the collector (`Nri.Result`) and the OCI spec generator (`Nri.Generate`, property
-C13). Proved here, for every original container and every chain:
+The property relates two models — the collector (`Nri.Result`, property C01/C02/C05) that
+merges the plugins' responses into ONE reply, and the OCI spec generator (`Nri.Generate`,
+property C13) that applies an adjustment to a spec.  `Nri.Compose` converts between their data
+types (`toGen`, `toSpec`) and defines the sequential application (`seqAdjust`).
 
-* `C03_appended_in_order` — hooks (all six lists), rlimits and CDI devices of all plugins are
-  all present in the combined reply, in plugin order, and nothing else is;
-* `C03_view_is_sequential` (from C04) — the container view the collector maintains is the
-  NRI-level sequential application of the plugins' adjustments.
+## Proved (all for every original container and every chain)
 
-The remaining link — `gen (toSpec c0) reply ≈ foldl gen (toSpec c0) adjustments` for the
-keyed families, through the generator model — is evaluated on every generated chain with the
-REAL generator by this property's correspondence run (combined vs sequential, family by
-family), and is not proved: partial.
+* `C03` — **assembled**: if the sequential application of the plugins' own adjustments
+  succeeds, the generator succeeds on the combined reply and the two specs are `SpecEq`:
+  structurally equal in every modelled field, maps (`annotations`, `unified`) through `lookup`,
+  with the two named weakenings (below).  `C03_general` is the same from ANY well-formed
+  starting spec (the reply never depends on the container).
+* `C03_success_iff` — inside `WellFormed` the two ways succeed or fail together.
+* `C03_propagation_partial` — the same WITHOUT the guard "no mount propagation option": when
+  both ways succeed the specs agree in every field (`SpecEqCore`) except the rootfs
+  propagation, for which combined ⊑ sequential (`RootfsLe`, weakening 3).
+* per field family, as statements about the generator's per-field step functions (no
+  `Except`, no externals): `C03_hooks`, `C03_rlimits`, `C03_args`, `C03_cgroups_path`,
+  `C03_oom_score`, `C03_cpu`, `C03_memory`, `C03_pids`, `C03_hugepages`, `C03_unified`,
+  `C03_annotations`, `C03_devices`, `C03_mounts` (equality of the SORTED lists — the generator
+  re-sorts after every `AdjustMounts`; `orderedMounts.Less` is total on distinct destinations),
+  `C03_cdi`, `C03_blockio_class`, `C03_rdt_class` (the fallible ones: sequential ok ⇒
+  combined ok with the same value), and the two weakened ones
+  `C03_env_partial` (finite map NAME ↦ value) and `C03_devRules_partial` (combined ⊆ sequential).
+* the earlier results: `C03_appended_in_order`, `C03_appended_request`,
+  `C03_view_is_sequential`.
+
+## The two weakenings of `SpecEq` (both forced; witnesses by `decide`)
+
+1. `EnvEq`: the process environment is compared as a finite map between two well-formed
+   environments — `weakening_env_order`: a variable re-set by a later plugin is replaced in
+   place sequentially but re-appended by the combined reply.
+2. `RulesSub`: device cgroup allow rules, combined ⊆ sequential —
+   `finding_devRules_stale` (known finding C03:devRules-stale): the generator never retracts
+   the rule of a device a later plugin removes.  Full-strength statement (FALSE of the code):
+   `sC.devRules = sS.devRules`.
+
+## Guards (`WellFormed` on each plugin's adjustment, `SpecWF` on the original spec)
+
+Each is forced — a `guard_*` theorem shows the two sides differ on an input violating only
+that clause:
+* no key `--k` (a key that still starts with the marker after one marker is dropped) —
+  `guard_marker_key`;
+* no `'='` inside an environment variable name — `guard_env_key_with_eq`;
+* args: not the bare `UpdateArgs` marker `[""]`, and no command line whose first word is the
+  empty string after the marker — `guard_args_bare_marker`, `guard_args_empty_first_word`
+  (new finding: collector and generator EACH strip one leading `""`);
+* no mount propagation option (`rshared`/`rslave`/`rprivate`) — `guard_propagation_sticky`
+  (the generator's sticky `propagation` variable makes the combined application fail where the
+  sequential one succeeds) and `finding_rootfs_propagation_stale` (new finding, same shape as
+  devRules-stale: the rootfs propagation raised for a mount a later plugin removes stays
+  raised sequentially); `C03_propagation_partial` says exactly what survives without this
+  clause;
+* original spec: distinct mount destinations, distinct device paths, environment entries
+  `NAME=value` with distinct non-empty names — `guard_spec_duplicate_mounts`,
+  `guard_spec_duplicate_devices`, `guard_spec_duplicate_env` (entries without `'='` are
+  invisible to `Env.lookup`; they are excluded because `SpecEq` also asserts that both
+  environments are well-formed).
+NOT needed (weaker hypotheses than planned in DESIGN.md): duplicate keys inside one response
+(the ledger rejects a key set twice; duplicate markers are merged), empty keys, set-then-remove
+order inside one response (both models now let the set win), hugepage sizes already in the
+original.  The only fact used from the ledger (C01) for `C03` is that the memory limit has at
+most one setter (`Compose.run_ledgerOk`): `AdjustResources` ignores a limit of 0, so two
+setters `5` then `0` would differ (`memory_limit_needs_ledger`); `C03_success_iff` uses the
+same fact for the block-I/O and RDT class.
+
+Externals: the CDI injector is the recording one (or absent); the block-I/O / RDT class
+resolvers and the host's mount table are arbitrary parameters.
 -/
 namespace Nri.Props.C03
 open Nri Nri.NApi Nri.Result Nri.Ledger Nri.Overlay
@@ -152,5 +208,514 @@ example :
        (str "30-c", some { adjust := some { rlimits := [{ type := str "RLIMIT_CORE" }], cdiDevices := [str "v/c=d1"] } })] with
      | .ok st => (st.reply.rlimits.map (·.type), st.reply.cdiDevices)
      | .error _ => ([], [])) = ([str "RLIMIT_NOFILE", str "RLIMIT_CORE"], [str "v/c=d0", str "v/c=d1"]) := by decide
+
+
+/-! ## The composition with the generator model -/
+
+open Nri.Compose Nri.Generate
+
+theorem adjs_eq (rs : List (Plugin × Option Response)) : adjs rs = adjsOf rs := by
+  have : adjOf = Compose.adjOf := by
+    funext x
+    obtain ⟨p, r⟩ := x
+    cases r <;> rfl
+  unfold adjs adjsOf
+  rw [this]
+
+/-! ### demo instance used by the non-vacuity examples -/
+
+def demoC0 : Container :=
+  { id := str "c0"
+    annotations := [(str "keep", str "1"), (str "drop", str "2")]
+    args := [str "sh"]
+    env := [str "PATH=/bin", str "OLD=1"]
+    mounts := [{ destination := str "/a" }, { destination := str "/b" }]
+    devices := [{ path := str "/dev/null", type := str "c", major := 1, minor := 3 }]
+    rlimits := [{ type := str "RLIMIT_NOFILE", hard := 10, soft := 5 }]
+    resources := { hugepages := [{ pageSize := str "2MB", limit := 1 }], unified := [(str "u0", str "x")] } }
+
+def demoA0 : Adjustment :=
+  { annotations := [(str "k0", str "v0"), (str "-drop", [])]
+    mounts := [{ destination := str "/m0" }, { destination := str "-/a" }]
+    env := [{ key := str "FOO", value := str "1" }, { key := str "-OLD" }]
+    hooks := some { prestart := [{ path := str "/bin/h0" }] }
+    hasLinux := true
+    devices := [{ path := str "/dev/x", type := str "c", major := 1, minor := 2 }]
+    resources := some { memory := some { limit := some 100 }, cpu := some { shares := some 5 },
+                        hugepages := [{ pageSize := str "2MB", limit := 4 }],
+                        unified := [(str "u", str "1")], pids := some 7 }
+    cgroupsPath := str "/cg0"
+    oomScoreAdj := some 5
+    rlimits := [{ type := str "RLIMIT_CORE", hard := 2, soft := 1 }]
+    cdiDevices := [str "v/c=d0"]
+    args := [str "a0"] }
+
+def demoA2 : Adjustment :=
+  { annotations := [(str "-k0", []), (str "k0", str "v2"), (str "k2", str "w")]
+    mounts := [{ destination := str "-/m0" }, { destination := str "/m0", type := str "tmpfs" },
+               { destination := str "/c/d" }]
+    env := [{ key := str "-FOO" }, { key := str "FOO", value := str "2" }, { key := str "BAR", value := str "3" }]
+    hooks := some { poststop := [{ path := str "/bin/h1" }] }
+    hasLinux := true
+    devices := [{ path := str "-/dev/x" }, { path := str "/dev/x", type := str "c", major := 5, minor := 6 },
+                { path := str "-/dev/null" }]
+    resources := some { cpu := some { quota := some 9 }, blockioClass := some (str "gold") }
+    rlimits := [{ type := str "RLIMIT_NPROC", hard := 4, soft := 3 }]
+    cdiDevices := [str "v/c=d1"]
+    args := [[], str "b0", str "b1"] }
+
+def demoChain : List (Plugin × Option Response) :=
+  [(str "00-a", some { adjust := some demoA0 }), (str "10-b", none), (str "20-c", some { adjust := some demoA2 })]
+
+def demoExt : Externals :=
+  { injectCDI := some (recordingInjector []), resolveBlockIO := some (fun _ => .ok 7) }
+
+/-- the demo chain is accepted by the collector, every adjustment is well-formed, the
+    original spec is well-formed, the sequential application succeeds -/
+theorem demo_ok :
+    (match run Quirks.fixed (initCreate demoC0) demoChain with | .ok _ => true | .error _ => false) = true ∧
+    (adjs demoChain).all wellFormed = true ∧ specWF (toSpec demoC0) = true ∧
+    (match seqAdjust demoExt (toSpec demoC0) ((adjs demoChain).map toGen) with
+     | .ok _ => true | .error _ => false) = true := by decide
+
+/-! ### per-family theorems
+
+Every theorem: `h` = the creation request succeeded with final state `st'`; `hwf` = every
+plugin's adjustment satisfies the core guard `WellFormedCore` (mount propagation options are
+allowed here).  `…G x a` is the generator's step for that field (the core
+function of `Generate.lean` applied to the field `x` of the spec and the matching part of
+`toGen a`); the right-hand side applies the plugins' own adjustments one after another. -/
+
+section Families
+variable (c0 : Container) (rs : List (Plugin × Option Response)) (st' : State)
+  (h : run Quirks.fixed (initCreate c0) rs = .ok st') (hwf : ∀ a ∈ adjs rs, WellFormedCore a)
+include h hwf
+
+theorem C03_hooks (x : Oci.Hooks) : hooksG x st'.reply = (adjs rs).foldl hooksG x := by
+  rw [adjs_eq] at hwf ⊢
+  obtain ⟨hrep, hc⟩ := run_chain c0 rs st' h hwf
+  rw [hrep, fam_hooks _ _ replyInv_reply0 hc, hooksG_reply0]
+
+theorem C03_rlimits (x : List Oci.Rlimit) : rlimitsG x st'.reply = (adjs rs).foldl rlimitsG x := by
+  rw [adjs_eq] at hwf ⊢
+  obtain ⟨hrep, hc⟩ := run_chain c0 rs st' h hwf
+  rw [hrep, fam_rlimits _ _ replyInv_reply0 hc, rlimitsG_reply0]
+
+theorem C03_args (x : List Str) : argsG x st'.reply = (adjs rs).foldl argsG x := by
+  rw [adjs_eq] at hwf ⊢
+  obtain ⟨hrep, hc⟩ := run_chain c0 rs st' h hwf
+  rw [hrep, fam_args _ _ replyInv_reply0 hc, argsG_reply0]
+
+theorem C03_cgroups_path (x : Str) : cgroupsG x st'.reply = (adjs rs).foldl cgroupsG x := by
+  rw [adjs_eq] at hwf ⊢
+  obtain ⟨hrep, hc⟩ := run_chain c0 rs st' h hwf
+  rw [hrep, fam_cgroups _ _ replyInv_reply0 hc, cgroupsG_reply0]
+
+theorem C03_oom_score (x : Option Int) : oomG x st'.reply = (adjs rs).foldl oomG x := by
+  rw [adjs_eq] at hwf ⊢
+  obtain ⟨hrep, hc⟩ := run_chain c0 rs st' h hwf
+  rw [hrep, fam_oom _ _ replyInv_reply0 hc, oomG_reply0]
+
+theorem C03_cpu (x : Oci.CPU) : cpuG x st'.reply = (adjs rs).foldl cpuG x := by
+  rw [adjs_eq] at hwf ⊢
+  obtain ⟨hrep, hc⟩ := run_chain c0 rs st' h hwf
+  rw [hrep, fam_cpu _ _ replyInv_reply0 hc, cpuG_reply0]
+
+/-- memory: the generator applies only the limit (to limit and swap), and ignores a limit of
+    0; the ledger guarantees at most one plugin sets it -/
+theorem C03_memory (x : Oci.Memory) : memG x st'.reply = (adjs rs).foldl memG x := by
+  rw [adjs_eq] at hwf ⊢
+  obtain ⟨hrep, hc⟩ := run_chain c0 rs st' h hwf
+  rw [hrep, fam_memory _ _ replyInv_reply0 hc, memG_reply0]
+
+theorem C03_pids (x : Option Int) : pidsG x st'.reply = (adjs rs).foldl pidsG x := by
+  rw [adjs_eq] at hwf ⊢
+  obtain ⟨hrep, hc⟩ := run_chain c0 rs st' h hwf
+  rw [hrep, fam_pids _ _ replyInv_reply0 hc, pidsG_reply0]
+
+theorem C03_hugepages (x : List Oci.HugepageLimit) : hugeG x st'.reply = (adjs rs).foldl hugeG x := by
+  rw [adjs_eq] at hwf ⊢
+  obtain ⟨hrep, hc⟩ := run_chain c0 rs st' h hwf
+  rw [hrep, fam_hugepages _ _ replyInv_reply0 hc, hugeG_reply0]
+
+/-- unified is a Go map: compared through `lookup` -/
+theorem C03_unified (x : AList Str Str) : MapEq (unifiedG x st'.reply) ((adjs rs).foldl unifiedG x) := by
+  rw [adjs_eq] at hwf ⊢
+  obtain ⟨hrep, hc⟩ := run_chain c0 rs st' h hwf
+  have := fam_unified _ _ replyInv_reply0 hc x
+  rw [unifiedG_reply0] at this
+  rw [hrep]; exact this
+
+/-- annotations are a Go map: compared through `lookup` -/
+theorem C03_annotations (x : AList Str Str) : MapEq (annG x st'.reply) ((adjs rs).foldl annG x) := by
+  rw [adjs_eq] at hwf ⊢
+  obtain ⟨hrep, hc⟩ := run_chain c0 rs st' h hwf
+  have := fam_annotations _ _ replyInv_reply0 hc x
+  rw [annG_reply0] at this
+  rw [hrep]; exact this
+
+/-- the device LIST (order included), given distinct original paths -/
+theorem C03_devices (x : Devices.State) (hx : NodupKeys Oci.Device.path x.1) :
+    (devG x st'.reply).1 = ((adjs rs).foldl devG x).1 := by
+  rw [adjs_eq] at hwf ⊢
+  obtain ⟨hrep, hc⟩ := run_chain c0 rs st' h hwf
+  have := fam_devices _ _ replyInv_reply0 hc x hx
+  rw [devG_reply0] at this
+  rw [hrep]; exact this.1
+
+/-- **partial (known finding C03:devRules-stale).** Full-strength statement, FALSE of the
+    code (`finding_devRules_stale`): `(devG x st'.reply).2 = ((adjs rs).foldl devG x).2`.
+    Proved: every allow rule of the combined application is one of the sequential
+    application.  Missing: the converse — the generator never retracts the rule of a device a
+    later plugin removes or replaces. -/
+theorem C03_devRules_partial (x : Devices.State) (hx : NodupKeys Oci.Device.path x.1) :
+    RulesSub (devG x st'.reply).2 ((adjs rs).foldl devG x).2 := by
+  rw [adjs_eq] at hwf ⊢
+  obtain ⟨hrep, hc⟩ := run_chain c0 rs st' h hwf
+  have := fam_devices _ _ replyInv_reply0 hc x hx
+  rw [devG_reply0] at this
+  rw [hrep]; exact this.2
+
+/-- the mount list — SORTED lists are equal although the generator re-sorts after every
+    `AdjustMounts` (given distinct original destinations) -/
+theorem C03_mounts (x : List Oci.Mount) (hx : NodupKeys Oci.Mount.destination x) :
+    mntG x st'.reply = (adjs rs).foldl mntG x := by
+  rw [adjs_eq] at hwf ⊢
+  obtain ⟨hrep, hc⟩ := run_chain c0 rs st' h hwf
+  rw [hrep, fam_mounts _ _ replyInv_reply0 hc x hx, mntG_reply0]
+
+/-- **partial (named weakening 1).** Full-strength statement, FALSE of the code
+    (`weakening_env_order`): `envG x st'.reply = (adjs rs).foldl envG x`.  Proved: both
+    environments are well-formed and agree as finite maps NAME ↦ value.  Missing: the order of
+    `environ` (which carries no meaning once names are distinct). -/
+theorem C03_env_partial (x : List Str) (hx : Env.WF x) :
+    EnvEq (envG x st'.reply) ((adjs rs).foldl envG x) ∧
+    Env.WF (envG x st'.reply) ∧ Env.WF ((adjs rs).foldl envG x) := by
+  rw [adjs_eq] at hwf ⊢
+  obtain ⟨hrep, hc⟩ := run_chain c0 rs st' h hwf
+  have := fam_env _ _ replyInv_reply0 hc x hx
+  rw [envG_reply0] at this
+  rw [hrep]
+  refine ⟨this, envG_wf _ _ hx (replyInv_foldl _ _ replyInv_reply0 hc).envKeys, ?_⟩
+  exact foldl_valid envG Env.WF EnvKeysOk (fun x a hx hk => envG_wf x a hx hk) _
+    (fun a ha => (wfParts a (hwf a ha)).envKeys) x hx
+
+/-- CDI names with the recording injector (`has` = an injector is configured; `bad` = names
+    it rejects): sequential ok ⇒ combined ok, same recorded names -/
+theorem C03_cdi (has : Bool) (bad x z : List Str) (hs : foldE (cdiG has bad) x (adjs rs) = .ok z) :
+    cdiG has bad x st'.reply = .ok z := by
+  rw [adjs_eq] at hwf hs
+  obtain ⟨hrep, hc⟩ := run_chain c0 rs st' h hwf
+  rw [hrep]; exact fam_cdi _ _ replyInv_reply0 hc has bad x x z (cdiG_reply0 _ _ _) hs
+
+/-- block-I/O class, any resolver: sequential ok ⇒ combined ok, same parameters -/
+theorem C03_blockio_class (res : Option (Str → Except Unit Nat)) (x z : Option Nat)
+    (hs : foldE (blockioG res) x (adjs rs) = .ok z) : blockioG res x st'.reply = .ok z := by
+  rw [adjs_eq] at hwf hs
+  obtain ⟨hrep, hc⟩ := run_chain c0 rs st' h hwf
+  rw [hrep]; exact fam_blockio _ _ replyInv_reply0 hc res x x z (blockioG_reply0 _ _) hs
+
+/-- RDT class, any resolver -/
+theorem C03_rdt_class (res : Option (Str → Except Unit Str)) (x z : Option Str)
+    (hs : foldE (rdtG res) x (adjs rs) = .ok z) : rdtG res x st'.reply = .ok z := by
+  rw [adjs_eq] at hwf hs
+  obtain ⟨hrep, hc⟩ := run_chain c0 rs st' h hwf
+  rw [hrep]; exact fam_rdt _ _ replyInv_reply0 hc res x x z (rdtG_reply0 _ _) hs
+
+end Families
+
+/-- non-vacuity of the per-family theorems: on the demo chain (`demo_ok`: `h` and `hwf` hold)
+    the extra hypotheses hold too — distinct device paths / mount destinations and a
+    well-formed environment of the original spec, and the sequential folds of the fallible
+    families succeed -/
+example :
+    NodupKeys Oci.Device.path (toSpec demoC0).devices ∧
+    NodupKeys Oci.Mount.destination (toSpec demoC0).mounts ∧ Env.WF (toSpec demoC0).env ∧
+    foldE (cdiG true []) [] (adjs demoChain) = .ok [str "v/c=d0", str "v/c=d1"] ∧
+    foldE (blockioG (some fun _ => .ok 7)) none (adjs demoChain) = .ok (some 7) ∧
+    foldE (rdtG none) none (adjs demoChain) = .ok none := by
+  obtain ⟨h1, h2, h3⟩ := specWF_parts (toSpec demoC0) demo_ok.2.2.1
+  exact ⟨h2, h1, h3, rfl, rfl, rfl⟩
+
+/-- … and the conclusions are about non-trivial values: e.g. the annotation `k0`, set by the
+    first plugin and re-set by the third, and the removed original annotation `drop` -/
+example :
+    (match run Quirks.fixed (initCreate demoC0) demoChain with
+     | .ok st' => some (AList.lookup (annG (toSpec demoC0).annotations st'.reply) (str "k0"),
+                        AList.lookup (annG (toSpec demoC0).annotations st'.reply) (str "drop"),
+                        AList.lookup ((adjs demoChain).foldl annG (toSpec demoC0).annotations) (str "k0"))
+     | .error _ => none) = some (some (str "v2"), none, some (str "v2")) := by decide
+
+/-! ### the assembled theorem -/
+
+/-- **C03 from any starting spec.** `ext`: recording CDI injector (or none), arbitrary class
+    resolvers and host mount table. -/
+theorem C03_general {ext : Externals} {bad : List Str}
+    (hi : ext.injectCDI = some (recordingInjector bad) ∨ ext.injectCDI = none)
+    (c0 : Container) (rs : List (Plugin × Option Response)) (st' : State)
+    (h : run Quirks.fixed (initCreate c0) rs = .ok st') (hwf : ∀ a ∈ adjs rs, WellFormed a)
+    (s0 sS : Oci.Spec) (hs0 : SpecWF s0)
+    (hseq : seqAdjust ext s0 ((adjs rs).map toGen) = .ok sS) :
+    ∃ sC, adjust ext s0 (toGen st'.reply) = .ok sC ∧ SpecEq sC sS := by
+  rw [adjs_eq] at hwf hseq
+  obtain ⟨hrep, hc⟩ := run_chain c0 rs st' h (fun a ha => wellFormed_core a (hwf a ha))
+  rw [hrep]
+  exact compose_main hi _ hc (fun a ha => wellFormed_noProp a (hwf a ha)) s0 sS hs0 hseq
+
+/-- **C03.** For every original container `c0` and every chain `rs` of plugin responses whose
+    adjustments are well-formed: if the creation request succeeds with combined reply
+    `st'.reply`, and applying each plugin's own adjustment in plugin order to the original
+    spec succeeds with `sS`, then applying the combined reply to the original spec succeeds
+    and gives a spec `SpecEq` to `sS`. -/
+theorem C03 {ext : Externals} {bad : List Str}
+    (hi : ext.injectCDI = some (recordingInjector bad) ∨ ext.injectCDI = none)
+    (c0 : Container) (rs : List (Plugin × Option Response)) (st' : State)
+    (h : run Quirks.fixed (initCreate c0) rs = .ok st') (hwf : ∀ a ∈ adjs rs, WellFormed a)
+    (hs0 : SpecWF (toSpec c0)) (sS : Oci.Spec)
+    (hseq : seqAdjust ext (toSpec c0) ((adjs rs).map toGen) = .ok sS) :
+    ∃ sC, adjust ext (toSpec c0) (toGen st'.reply) = .ok sC ∧ SpecEq sC sS :=
+  C03_general hi c0 rs st' h hwf (toSpec c0) sS hs0 hseq
+
+/-- **Both ways succeed or fail together** (inside `WellFormed`): the generator accepts the
+    combined reply iff it accepts the plugins' adjustments one after another.  (⇐ is part of
+    `C03`; ⇒ uses the ledger: the block-I/O / RDT class has a single setter, so no class the
+    resolver rejects is masked by a later one.) -/
+theorem C03_success_iff {ext : Externals} {bad : List Str}
+    (hi : ext.injectCDI = some (recordingInjector bad) ∨ ext.injectCDI = none)
+    (c0 : Container) (rs : List (Plugin × Option Response)) (st' : State)
+    (h : run Quirks.fixed (initCreate c0) rs = .ok st') (hwf : ∀ a ∈ adjs rs, WellFormed a)
+    (s0 : Oci.Spec) (hs0 : SpecWF s0) :
+    (∃ sC, adjust ext s0 (toGen st'.reply) = .ok sC) ↔
+    (∃ sS, seqAdjust ext s0 ((adjs rs).map toGen) = .ok sS) := by
+  constructor
+  · rintro ⟨sC, hC⟩
+    rw [adjs_eq] at hwf ⊢
+    obtain ⟨hrep, hc⟩ := run_chain c0 rs st' h (fun a ha => wellFormed_core a (hwf a ha))
+    rw [hrep] at hC
+    exact compose_converse hi _ hc (fun a ha => wellFormed_noProp a (hwf a ha)) s0 sC hs0 hC
+  · rintro ⟨sS, hS⟩
+    obtain ⟨sC, hC, _⟩ := C03_general hi c0 rs st' h hwf s0 sS hs0 hS
+    exact ⟨sC, hC⟩
+
+/-- **C03 with mount propagation options** (only the core guard): then `AdjustMounts` can fail
+    on either side (`guard_propagation_sticky`), so BOTH successes are hypotheses; the specs
+    agree in every field except the rootfs propagation, where **weakening 3** holds: the
+    combined application raises it at most as far as the sequential one
+    (`finding_rootfs_propagation_stale` shows equality fails).  Full-strength statement, FALSE
+    of the code: `sC.rootfsPropagation = sS.rootfsPropagation`. -/
+theorem C03_propagation_partial {ext : Externals} {bad : List Str}
+    (hi : ext.injectCDI = some (recordingInjector bad) ∨ ext.injectCDI = none)
+    (c0 : Container) (rs : List (Plugin × Option Response)) (st' : State)
+    (h : run Quirks.fixed (initCreate c0) rs = .ok st') (hwf : ∀ a ∈ adjs rs, WellFormedCore a)
+    (s0 sS sC : Oci.Spec) (hs0 : SpecWF s0)
+    (hseq : seqAdjust ext s0 ((adjs rs).map toGen) = .ok sS)
+    (hcomb : adjust ext s0 (toGen st'.reply) = .ok sC) :
+    SpecEqCore sC sS ∧ RootfsLe sC.rootfsPropagation sS.rootfsPropagation := by
+  rw [adjs_eq] at hwf hseq
+  obtain ⟨hrep, hc⟩ := run_chain c0 rs st' h hwf
+  rw [hrep] at hcomb
+  exact compose_propagation hi _ hc s0 sS sC hs0 hseq hcomb
+
+/-- a chain outside `WellFormed` (a mount with `rshared`, removed by the next plugin) and a
+    host whose mounts are all shared -/
+def propA0 : Adjustment :=
+  { mounts := [{ destination := str "/m1", source := str "/shared", options := [str "rshared"] }] }
+
+def propChain : List (Plugin × Option Response) :=
+  [(str "00-a", some { adjust := some propA0 }),
+   (str "10-b", some { adjust := some { mounts := [{ destination := str "-/m1" }] } })]
+
+def propExt : Externals := { hostPropagation := fun _ => str "rshared" }
+
+/-- non-vacuity of `C03_propagation_partial`: the core guard holds, `WellFormed` does not, both
+    ways succeed — and the rootfs propagations differ (⊑, not =) -/
+example :
+    (adjs propChain).all wellFormedCore = true ∧ (adjs propChain).all wellFormed = false ∧
+    (match run Quirks.fixed (initCreate { id := str "c" }) propChain with
+     | .error _ => none
+     | .ok st' =>
+       match adjust propExt (toSpec { id := str "c" }) (toGen st'.reply),
+             seqAdjust propExt (toSpec { id := str "c" }) ((adjs propChain).map toGen) with
+       | .ok c, .ok s => some (c.rootfsPropagation, s.rootfsPropagation, decide (c.mounts = s.mounts))
+       | _, _ => none) = some ([], str "rshared", true) := by decide
+
+/-- non-vacuity of `C03`, `C03_general` and of every per-family theorem: the demo chain
+    satisfies all hypotheses at once (three plugins, one not subscribed; every family touched;
+    remove-then-set of an annotation, a mount, a variable and a device by the later plugin;
+    `UpdateArgs`) … -/
+example :
+    (∃ st', run Quirks.fixed (initCreate demoC0) demoChain = .ok st') ∧
+    (∀ a ∈ adjs demoChain, WellFormed a) ∧ SpecWF (toSpec demoC0) ∧
+    (∃ sS, seqAdjust demoExt (toSpec demoC0) ((adjs demoChain).map toGen) = .ok sS) ∧
+    (demoExt.injectCDI = some (recordingInjector []) ∨ demoExt.injectCDI = none) := by
+  obtain ⟨h1, h2, h3, h4⟩ := demo_ok
+  refine ⟨?_, ?_, h3, ?_, .inl rfl⟩
+  · cases hr : run Quirks.fixed (initCreate demoC0) demoChain with
+    | ok st => exact ⟨st, rfl⟩
+    | error e => rw [hr] at h1; cases h1
+  · intro a ha; exact List.all_eq_true.1 h2 a ha
+  · cases hr : seqAdjust demoExt (toSpec demoC0) ((adjs demoChain).map toGen) with
+    | ok s => exact ⟨s, rfl⟩
+    | error e => rw [hr] at h4; cases h4
+
+/-- both ways on the demo chain -/
+def demoBoth : Option (Oci.Spec × Oci.Spec) :=
+  match run Quirks.fixed (initCreate demoC0) demoChain with
+  | .error _ => none
+  | .ok st' =>
+    match adjust demoExt (toSpec demoC0) (toGen st'.reply),
+          seqAdjust demoExt (toSpec demoC0) ((adjs demoChain).map toGen) with
+    | .ok c, .ok s => some (c, s)
+    | _, _ => none
+
+/-- … and there the conclusion is not trivial: the two specs are not literally equal (the
+    sequential spec keeps a stale device rule), while mounts, devices, args … are -/
+example :
+    demoBoth.map (fun (c, s) => (c.devRules.length, s.devRules.length, decide (c.mounts = s.mounts),
+      decide (c.devices = s.devices), decide (c = s))) = some (2, 3, true, true, false) := by
+  decide
+
+example :
+    demoBoth.map (fun (c, _) => (c.mounts.map Oci.Mount.destination, c.args, c.cdi, c.env)) =
+      some ([str "/b", str "/m0", str "/c/d"], [str "b0", str "b1"], [str "v/c=d0", str "v/c=d1"],
+            [str "PATH=/bin", str "FOO=2", str "BAR=3"]) := by
+  decide
+
+/-! ### witnesses: the weakenings and the guards are forced -/
+
+/-- both ways on a concrete chain with the default externals (no injector, no resolvers) -/
+def bothWays (c0 : Container) (rs : List (Plugin × Option Response)) :
+    Option (Except GenError Oci.Spec × Except GenError Oci.Spec) :=
+  match run Quirks.fixed (initCreate c0) rs with
+  | .error _ => none
+  | .ok st' => some (adjust {} (toSpec c0) (toGen st'.reply), seqAdjust {} (toSpec c0) ((adjs rs).map toGen))
+
+def one (p : String) (a : Adjustment) : Plugin × Option Response := (str p, some { adjust := some a })
+
+/-- **weakening 1 is forced**: `A` set by the first plugin together with `B`, re-set
+    (remove + set) by the second: sequentially replaced in place, re-appended by the reply. -/
+theorem weakening_env_order :
+    (match bothWays { id := str "c" }
+        [one "00" { env := [{ key := str "A", value := str "1" }, { key := str "B", value := str "2" }] },
+         one "10" { env := [{ key := str "-A" }, { key := str "A", value := str "3" }] }] with
+     | some (.ok c, .ok s) => some (c.env, s.env)
+     | _ => none) = some ([str "B=2", str "A=3"], [str "A=3", str "B=2"]) := by decide
+
+/-- **weakening 2 is forced (known finding C03:devRules-stale)**: a device added by the first
+    plugin and removed by the second leaves its cgroup allow rule in the sequential spec. -/
+theorem finding_devRules_stale :
+    (match bothWays { id := str "c" }
+        [one "00" { hasLinux := true, devices := [{ path := str "/dev/x", type := str "c", major := 1, minor := 2 }] },
+         one "10" { hasLinux := true, devices := [{ path := str "-/dev/x" }] }] with
+     | some (.ok c, .ok s) => some (decide (c.devices = s.devices), c.devRules, s.devRules)
+     | _ => none) =
+    some (true, [], [{ allow := true, type := str "c", major := some 1, minor := some 2, access := str "rw" }]) := by
+  decide
+
+/-- guard `keyOk`: the second plugin names a key with two markers; the collector then drops
+    the first plugin's removal marker from the reply, so the mount survives in the combined
+    spec -/
+theorem guard_marker_key :
+    (match bothWays { id := str "c", mounts := [{ destination := str "/a" }] }
+        [one "00" { mounts := [{ destination := str "-/a" }] },
+         one "10" { mounts := [{ destination := str "--/a" }] }] with
+     | some (.ok c, .ok s) => some (c.mounts.map (·.destination), s.mounts.map (·.destination))
+     | _ => none) = some ([str "/a"], []) := by decide
+
+/-- guard on environment names: a name containing `'='` -/
+theorem guard_env_key_with_eq :
+    (match bothWays { id := str "c" }
+        [one "00" { env := [{ key := str "A=B", value := str "c" }] },
+         one "10" { env := [{ key := str "A", value := str "x" }] }] with
+     | some (.ok c, .ok s) => some (Env.lookup c.env (str "A"), Env.lookup s.env (str "A"))
+     | _ => none) = some (some (str "B=c"), some (str "x")) := by decide
+
+/-- guard `argsOk`, bare marker: `UpdateArgs([])` after another plugin set the args -/
+theorem guard_args_bare_marker :
+    (match bothWays { id := str "c", args := [str "orig"] }
+        [one "00" { args := [str "a"] }, one "10" { args := [[]] }] with
+     | some (.ok c, .ok s) => some (c.args, s.args)
+     | _ => none) = some ([str "orig"], [str "a"]) := by decide
+
+/-- guard `argsOk`, **new finding**: `UpdateArgs(["", "x"])` — the collector strips the
+    marker, the generator strips the (legitimately) empty first word of the reply once more -/
+theorem guard_args_empty_first_word :
+    (match bothWays { id := str "c", args := [str "orig"] }
+        [one "00" { args := [[], [], str "x"] }] with
+     | some (.ok c, .ok s) => some (c.args, s.args)
+     | _ => none) = some ([str "x"], [[], str "x"]) := by decide
+
+/-- guard `noPropagation`: the generator's `propagation` variable is sticky across the
+    entries of ONE `AdjustMounts` call, so in the combined reply the second plugin's plain
+    mount inherits `rshared` from the first plugin's mount and its source is checked against
+    the host's mount table (here: shared only under `/shared`): combined fails, sequential
+    succeeds -/
+theorem guard_propagation_sticky :
+    (match run Quirks.fixed (initCreate { id := str "c" })
+        [one "00" { mounts := [{ destination := str "/m1", source := str "/shared", options := [str "rshared"] }] },
+         one "10" { mounts := [{ destination := str "/m2", source := str "/private" }] }] with
+     | .error _ => none
+     | .ok st' =>
+       let ext : Externals := { hostPropagation := fun src => if src = str "/shared" then str "rshared" else [] }
+       some ((match adjust ext (toSpec { id := str "c" }) (toGen st'.reply) with
+              | .ok _ => none | .error e => some e),
+             (seqAdjust ext (toSpec { id := str "c" })
+               [toGen { mounts := [{ destination := str "/m1", source := str "/shared", options := [str "rshared"] }] },
+                toGen { mounts := [{ destination := str "/m2", source := str "/private" }] }]).toOption.map
+               (·.mounts.map (·.destination)))) =
+    some (some .mountPropagation, some [str "/m1", str "/m2"]) := by decide
+
+/-- guard `noPropagation`, **new finding** (same shape as devRules-stale): the rootfs
+    propagation raised for a mount that a later plugin removes stays raised sequentially -/
+theorem finding_rootfs_propagation_stale :
+    (match run Quirks.fixed (initCreate { id := str "c" })
+        [one "00" { mounts := [{ destination := str "/m1", source := str "/shared", options := [str "rshared"] }] },
+         one "10" { mounts := [{ destination := str "-/m1" }] }] with
+     | .error _ => none
+     | .ok st' =>
+       let ext : Externals := { hostPropagation := fun _ => str "rshared" }
+       match adjust ext (toSpec { id := str "c" }) (toGen st'.reply),
+             seqAdjust ext (toSpec { id := str "c" })
+               [toGen { mounts := [{ destination := str "/m1", source := str "/shared", options := [str "rshared"] }] },
+                toGen { mounts := [{ destination := str "-/m1" }] }] with
+       | .ok c, .ok s => some (c.mounts, s.mounts, c.rootfsPropagation, s.rootfsPropagation)
+       | _, _ => none) =
+    some ([], [], [], str "rshared") := by decide
+
+/-- guard `SpecWF`: an original with two mounts on one destination — `RemoveMount` deletes only
+    the first match: sequentially twice (set = remove-and-append, then the removal), combined
+    once (the reply only carries the removal marker) -/
+theorem guard_spec_duplicate_mounts :
+    (match bothWays { id := str "c", mounts := [{ destination := str "/a", type := str "t1" }, { destination := str "/a", type := str "t2" }] }
+        [one "00" { mounts := [{ destination := str "/a", type := str "t3" }] },
+         one "10" { mounts := [{ destination := str "-/a" }] }] with
+     | some (.ok c, .ok s) => some (c.mounts.map Oci.Mount.type, s.mounts.map Oci.Mount.type)
+     | _ => none) = some ([str "t2"], [str "t3"]) := by decide
+
+/-- guard `SpecWF`, devices: two original devices on one path -/
+theorem guard_spec_duplicate_devices :
+    (match bothWays { id := str "c", devices := [{ path := str "/dev/x", type := str "t1" }, { path := str "/dev/x", type := str "t2" }] }
+        [one "00" { hasLinux := true, devices := [{ path := str "/dev/x", type := str "t3" }] },
+         one "10" { hasLinux := true, devices := [{ path := str "-/dev/x" }] }] with
+     | some (.ok c, .ok s) => some (c.devices.map Oci.Device.type, s.devices.map Oci.Device.type)
+     | _ => none) = some ([str "t2"], []) := by decide
+
+/-- guard `SpecWF`, environment: a name occurring twice in the original -/
+theorem guard_spec_duplicate_env :
+    (match bothWays { id := str "c", env := [str "A=1", str "A=2"] }
+        [one "00" { env := [{ key := str "A", value := str "3" }] },
+         one "10" { env := [{ key := str "-A" }] }] with
+     | some (.ok c, .ok s) => some (Env.lookup c.env (str "A"), Env.lookup s.env (str "A"))
+     | _ => none) = some (some (str "2"), none) := by decide
+
+/-- the ledger fact is needed: WITHOUT the ledger (folding `replyStep` directly) a limit 5
+    followed by a limit 0 would give different memory sections — the ledger rejects the chain -/
+theorem memory_limit_needs_ledger :
+    let a1 : Adjustment := { hasLinux := true, resources := some { memory := some { limit := some 5 } } }
+    let a2 : Adjustment := { hasLinux := true, resources := some { memory := some { limit := some 0 } } }
+    (memG {} (replyStep (replyStep reply0 a1) a2)).limit = none ∧
+    (memG (memG {} a1) a2).limit = some 5 ∧
+    (match run Quirks.fixed (initCreate { id := str "c" }) [one "00" a1, one "10" a2] with
+     | .ok _ => false | .error _ => true) = true := by decide
 
 end Nri.Props.C03
